@@ -68,7 +68,7 @@ CHECKS = {
     "C15": (
         "model_checking",
         "exhaustive product enumeration of the split-timing configuration space (kind x version x chart kind x {absent,empty,non-empty}^11, offsets, DISPLAYBPM spellings) through the real TimingData/displaybpm with source-revealing sentinel values",
-        "Quick: all vectors with <=3 non-absent chart timing properties plus corners; thorough: all 3^11 vectors, for 2 simfile kinds x 7 versions x 3 chart kinds: all five TimingData attributes must come from the one source the rule selects. OFFSET/DISPLAYBPM {absent, empty, value} on both sides x ignore_specified x all DISPLAYBPM spellings of <=3 tokens x BPMS lists: offset default 0, displayed BPM static/range/random or BPMS min/max of the selected source. Magnitudes: BPMS with 100000.001 / 0.001 / 2000, DISPLAYBPM of 29 digits. Scientific notation in BPMS; a TimingData edited in place before another is built.",
+        "Quick: all vectors with <=3 non-absent chart timing properties plus corners; thorough: all 3^11 vectors, for 2 simfile kinds x 7 versions x 3 chart kinds: all five TimingData attributes must come from the one source the rule selects. OFFSET/DISPLAYBPM {absent, empty, value} on both sides x ignore_specified x all DISPLAYBPM spellings of <=3 tokens x BPMS lists: offset default 0, displayed BPM static/range/random or BPMS min/max of the selected source. Magnitudes: BPMS with 100000.001 / 0.001 / 2000, DISPLAYBPM of 29 digits. Scientific notation in BPMS; the simfile's version edited in place (by key / by attribute, across 0.7 and back) between readings; a TimingData edited in place before another is built.",
         "Trusted: the rule as stated in the property. Blank-padded DISPLAYBPM spellings are accepted either way; chosen source has a non-empty BPMS for the display clause.",
         "DESIGN.md 5 (C15)",
     ),
